@@ -301,6 +301,8 @@ class Check(PropertyCheck):
     id = 'C04'
     props_module = 'Props.C04'
     models = {'names': 'XNames.v'}
+    needs_gen = True
+    gen_modules = ['gen_c04_code']
     rule = ('generated acyclic multi-package projects (packages depth <= 3, plain/aliased/relative(1-4)/star imports, module '
             'aliases, package re-imports, alias chains, class scopes, single re-exports) x a processing order; every name bound '
             'in every module and class namespace under CPython plus its dotted continuations to depth 3; non-trivial = a query '
@@ -310,11 +312,21 @@ class Check(PropertyCheck):
         'no axioms (Print Assumptions: Closed under the global context for every theorem)',
         'extraction: ExtrOcamlBasic only; OCaml 4.13.1; coq/ocaml/driver.ml',
         'harness/c04.py + c04_gen.py + impl/c04_names.py (real pydoctor) + impl/c04_cpython.py (CPython 3.12 import system)',
+        'translator harness/gen/gen_c04_code.py (fail-closed; bodies of Documentable.expandName, Module/Class._localNameToFullName, '
+        'Class.find -> Gen/NamesCode.v) and the interpreter Model/NamesIR.v; primitives assumed as documented there: dict lookups on '
+        'contents/_localNameToFullName_map, fullName(), parent, objForFullName, isinstance(x, Class), truthiness of a Documentable, '
+        'mro() = the single-inheritance base chain; Inheritable._localNameToFullName (Function objects), resolveName and '
+        'objForFullName are pinned by the translator, not translated',
         'Spec/PyImport.v is a hand-written final-state semantics of CPython binding; validated against CPython on every run',
         'modelled not verified: at most one base per class (C3 is C05), no duplicate definitions, CPython ast parsing',
     ]
     manifest = {
-        'text': ('Model/Names.v mirrors visit_Import/visit_ImportFrom/_importNames/_importAll/_handleReExport/_handleAliasing, '
+        'text': ('TIE TO THE SOURCE: the bodies of Documentable.expandName, Module._localNameToFullName, Class._localNameToFullName and '
+                 'Class.find are translated from the current pydoctor/model.py on every run (harness/gen/gen_c04_code.py -> '
+                 'Gen/NamesCode.v) and C04_code_{module_l2f,class_l2f,find,expand_name}_is_model prove, for all inputs, that their '
+                 'interpretation (Model/NamesIR.v) is l2f / find_member / expand_name of the model; C04_code_bound_name_sound restates '
+                 'the property on the translated code; the interpreted code is also a third leg of the correspondence. '
+                 'Model/Names.v mirrors visit_Import/visit_ImportFrom/_importNames/_importAll/_handleReExport/_handleAliasing, '
                  'expandName/resolveName/_localNameToFullName/Class.find/reparent and the processModule work-list; Spec/PyImport.v '
                  'states what CPython binds (relations incl. star imports + an evaluator proved sound for them). Proved for all '
                  'inputs: the relative-level arithmetic equals importlib._resolve_name (C04_relative_level); every alias entry '
@@ -553,6 +565,12 @@ class Check(PropertyCheck):
                     [at.unpath(mr[2][0][0]), at.unpath(mr[2][0][1]), mr[2][0][2]] if mr[2] else None]
             if mr[0] == [] and r[0] is None:
                 continue
+            if len(mr) > 5 and mr[0]:
+                code = at.unpath(mr[5][0]) if mr[5] else None
+                self.count('code_leg_queries')
+                if code != r[1]:
+                    return ('the body of expandName translated from model.py (Gen/NamesCode.v, interpreted by Model.NamesIR) and '
+                            'pydoctor disagree on %r in %s' % (q[2], '.'.join([q[0]] + q[1])), code, r[1])
             if mres != r:
                 return ('expandName/resolveName of %r in %s' % (q[2], '.'.join([q[0]] + q[1])), mres, r)
         return None
